@@ -26,6 +26,9 @@ type termCase struct {
 	// LateDisconnect: after a gateway shutdown the client sends a plain DISCONNECT (its answer to the
 	// gateway's DISCONNECT) within the poll interval.
 	LateDisconnect bool `json:"late_disconnect,omitempty"`
+	// BrokerSilent: the connect exchange is complete on the client's side and the broker has not
+	// answered the MQTT CONNECT yet.
+	BrokerSilent bool `json:"broker_silent,omitempty"`
 }
 
 func genTerm(t *rapid.T) termCase {
@@ -41,10 +44,19 @@ func genTerm(t *rapid.T) termCase {
 	switch c.Prefix {
 	case "fresh":
 	case "midconnect":
-		switch rapid.IntRange(0, 2).Draw(t, "mid") {
+		switch rapid.IntRange(0, 3).Draw(t, "mid") {
 		case 0: // broker silent
 			sc.Auto.Connack = nil
+			c.BrokerSilent = true
 			add(connectSteps(sc.Cfg, "cl", keepalive)...)
+		case 3: // the whole exchange with a will done, broker silent
+			sc.Auto.Connack = nil
+			c.BrokerSilent = true
+			add(gwgen.SN(gwgen.Connect("cl", keepalive, true, true)))
+			if sc.Cfg.Auth {
+				add(gwgen.SN(gwgen.AuthPlain("alice", []byte("secret"))))
+			}
+			add(gwgen.SN(gwgen.WillTopic("w/t", 1, false)), gwgen.SN(gwgen.WillMsg([]byte("gone"))))
 		case 1: // waiting for WILLTOPIC / AUTH
 			add(gwgen.SN(gwgen.Connect("cl", keepalive, true, true)))
 		default: // waiting for WILLMSG
@@ -116,8 +128,13 @@ func genTerm(t *rapid.T) termCase {
 		c.Pending = append(c.Pending, "blocked-broker-write")
 		causes = []string{"cancel", "cancel", "mqclose", "badmq"}
 	}
+	if c.BrokerSilent {
+		// the broker accepts the connection at last, but the client has become unreachable: the
+		// CONNACK cannot be sent
+		causes = append(causes, "connack-undeliverable", "connack-undeliverable")
+	}
 	c.Cause = rapid.SampledFrom(causes).Draw(t, "cause")
-	if (c.Cause == "cancel" || c.Cause == "mqclose" || c.Cause == "badmq") && rapid.IntRange(0, 4).Draw(t, "unreachable") == 0 {
+	if c.Cause == "connack-undeliverable" || (c.Cause == "cancel" || c.Cause == "mqclose" || c.Cause == "badmq") && rapid.IntRange(0, 4).Draw(t, "unreachable") == 0 {
 		// the client has vanished and its address is unreachable: the farewell DISCONNECT cannot be sent
 		c.Unreachable = true
 		add(gwsim.Step{K: "snfail"})
@@ -140,6 +157,8 @@ func genTerm(t *rapid.T) termCase {
 		add(gwgen.SN(plainDisconnect(t)))
 	case "mqclose":
 		add(gwgen.MQClose())
+	case "connack-undeliverable":
+		add(gwgen.MQ(mqttref.Pkt{Type: mqttref.CONNACK, RC: 0}))
 	case "sneof":
 		add(gwsim.Step{K: "snclose"})
 	case "badsn":
@@ -167,7 +186,7 @@ func causeEvent(tr *gwsim.Trace, step int) (int, *gwsim.Event) {
 func TestC13(t *testing.T) {
 	vf.Check(t, vf.Prop[termCase]{
 		ID: "C13", Name: "clean-termination", Bubble: true, DeadlockIsViolation: true,
-		Rule: "a session prefix (fresh / mid connect exchange with the broker silent or WILL*/AUTH outstanding / active with 0-4 operations some left pending: unacknowledged client QoS 1 publish, unacknowledged broker QoS 1/2 publish, unacknowledged gateway REGISTER / asleep without and with a running sleep pinger (sleep durations with a zero low or high byte included) / asleep and announcing a new sleep duration / after a wake-up / reconnected after a wake-up) followed, after a drawn pause around the poll interval, by one termination cause: gateway shutdown, client plain DISCONNECT, broker closing the connection, undecodable datagram, the client's transport closed by the peer (EOF, as after a DTLS close_notify), illegal packet while disconnected, undecodable MQTT bytes; for the causes which need no datagram the client is, in a fifth of the cases, unreachable by then (writes to it fail); in a quarter of the active prefixes the broker has stopped reading and a write to it is pending; after a third of the gateway shutdowns the client answers the farewell DISCONNECT with a plain DISCONNECT of its own 1-99 ms later. Non-trivial = cause other than a clean DISCONNECT of an idle active session, or pending exchanges/pinger at the cause; distinct by (prefix, cause, pending, script).",
+		Rule: "a session prefix (fresh / mid connect exchange with the broker silent or WILL*/AUTH outstanding / active with 0-4 operations some left pending: unacknowledged client QoS 1 publish, unacknowledged broker QoS 1/2 publish, unacknowledged gateway REGISTER / asleep without and with a running sleep pinger (sleep durations with a zero low or high byte included) / asleep and announcing a new sleep duration / after a wake-up / reconnected after a wake-up) followed, after a drawn pause around the poll interval, by one termination cause: gateway shutdown, client plain DISCONNECT, broker closing the connection, undecodable datagram, the client's transport closed by the peer (EOF, as after a DTLS close_notify), illegal packet while disconnected, undecodable MQTT bytes, the broker's CONNACK arriving when the client has become unreachable (the CONNACK cannot be sent); for the causes which need no datagram the client is, in a fifth of the cases, unreachable by then (writes to it fail); in a quarter of the active prefixes the broker has stopped reading and a write to it is pending; after a third of the gateway shutdowns the client answers the farewell DISCONNECT with a plain DISCONNECT of its own 1-99 ms later. Non-trivial = cause other than a clean DISCONNECT of an idle active session, or pending exchanges/pinger at the cause; distinct by (prefix, cause, pending, script).",
 		Assumptions: []string{"bound: run returns within 100 ms (poll interval) + 1 ms of the cause on the virtual clock; sends are instantaneous on the in-memory links",
 			"the DISCONNECT-count clause is asserted in model states on which specification and implementation cannot disagree (never connected, active, asleep before the first wake-up); after a wake-up only termination, close and the goroutine census are asserted",
 			"the 'broker unreachable' cause needs a real dial and is checked by the separate part dial-failure"},
